@@ -180,7 +180,7 @@ func (p *clientStreamProcessorFMP4) processSegment(ctx context.Context, seg *seg
 			dts := leadingTimeConvFMP4(p.client).convert(int64(partTrack.BaseTime), trackProc.track.track.ClockRate)
 			ntp := leadingTimeConvFMP4(p.client).getNTP(ctx, dts, trackProc.track.track.ClockRate)
 
-			err := trackProc.push(ctx, &procEntryFMP4{
+			processed, err := p.pushToTrackProcessor(ctx, trackProc, &procEntryFMP4{
 				partTrack: partTrack,
 				dts:       dts,
 				ntp:       ntp,
@@ -189,11 +189,35 @@ func (p *clientStreamProcessorFMP4) processSegment(ctx context.Context, seg *seg
 				return err
 			}
 
-			partTrackCount++
+			partTrackCount += 1 - processed
 		}
 	}
 
 	return p.joinTrackProcessors(ctx, partTrackCount)
+}
+
+// push an entry to a track processor while collecting the notifications of
+// the entries that have already been processed, otherwise a segment with more
+// part tracks than the capacity of chPartTrackProcessed blocks forever.
+func (p *clientStreamProcessorFMP4) pushToTrackProcessor(
+	ctx context.Context,
+	trackProc *clientTrackProcessorFMP4,
+	entry *procEntryFMP4,
+) (int, error) {
+	processed := 0
+
+	for {
+		select {
+		case trackProc.queue <- entry:
+			return processed, nil
+
+		case <-p.chPartTrackProcessed:
+			processed++
+
+		case <-ctx.Done():
+			return processed, fmt.Errorf("terminated")
+		}
+	}
 }
 
 func (p *clientStreamProcessorFMP4) joinTrackProcessors(ctx context.Context, partTrackCount int) error {
